@@ -219,7 +219,7 @@ P("C15",
              "their own code; every field must equal the torrent's, and the peer id must be the same 20 bytes the client presents to peers. "
              "c15.discipline drives the periodic announcer against stub trackers with generated reply sequences (event order, spacing); c15.session judges every announce of a real "
              "session (left / counters / identity / stopped only after an accepted announce).",
-  level_note="Trusted: harness/strk (own HTTP request-line/percent decoder, own BEP 15 decoder). The 'key' parameter is recorded in evidence, not asserted. "
+  level_note="Trusted: harness/strk (own HTTP request-line/percent decoder, own BEP 15 decoder). The 'key' parameter is recorded in evidence, not asserted. An announce that fails against a stub tracker that answers correctly is reported (this is how C16-udp-connect-response-lost-to-cancel was found). "
              "Timers are real: spacing is judged with a 60 ms tolerance on the harness's own clock readings at the stub tracker. 'stopped only to trackers that accepted an announce' is decided by the session-level unit c15.session.",
   technique="property-based testing (rapid): round trip through an independent decoder on the far side of a real socket",
   rule="transport {http, udp} x identity bytes x counters x event x numwant x tracker URLs with and without a query; every case is non-trivial (distinct = distinct case)",
